@@ -59,6 +59,9 @@ var powerSets = [][]int64{
 	{4, 3, 3},
 	{58617, 17803, 79, 24, 2}, // skewed: priority rescaling is active while rounds are skipped
 	{1000, 300, 7, 1},
+	{2, 2, 1, 1}, // totals divisible by 3: exactly two thirds is reachable
+	{1, 1, 1},
+	{6, 3, 2, 1},
 }
 
 func kv(op string) map[string]string {
@@ -503,11 +506,37 @@ func (s *sim) apply(op string) string {
 		if !(ok0 && ok1 && ok2 && ok3 && ok4) || r < 0 || v < 0 || peer < 0 || (m["sig"] != "0" && m["sig"] != "1") {
 			return "bad-op"
 		}
+		// optional: a = validator whose address the vote carries, k = validator whose key signs (default v)
+		av, kv2 := v, v
+		if x, ok := m["a"]; ok {
+			y, err := strconv.Atoi(x)
+			if err != nil || y < 0 {
+				return "bad-op"
+			}
+			av = y
+		}
+		if x, ok := m["k"]; ok {
+			y, err := strconv.Atoi(x)
+			if err != nil || y < 0 {
+				return "bad-op"
+			}
+			kv2 = y
+		}
 		run = func() string {
 			vote := &types.Vote{Type: t, Height: 1, Round: int32(r), BlockID: id, Timestamp: genesisTime.Add(time.Second),
 				ValidatorIndex: int32(v)}
-			key := s.w.keys[v%len(s.w.keys)]
-			vote.ValidatorAddress = key.PubKey().Address()
+			nk := len(s.w.keys)
+			if av < nk {
+				vote.ValidatorAddress = s.w.keys[av].PubKey().Address()
+			} else { // an address of nobody in the set
+				vote.ValidatorAddress = ed25519.GenPrivKeyFromSecret([]byte(fmt.Sprintf("stranger-%d", av))).PubKey().Address()
+			}
+			var key crypto.PrivKey
+			if kv2 < nk {
+				key = s.w.keys[kv2]
+			} else {
+				key = ed25519.GenPrivKeyFromSecret([]byte(fmt.Sprintf("stranger-%d", kv2)))
+			}
 			sig, err := key.Sign(types.VoteSignBytes(chainID, vote.ToProto()))
 			if err != nil {
 				panic(err)
@@ -757,10 +786,15 @@ func oracle(c core.Case, out []string) []core.Finding {
 			continue
 		}
 		if f[0] == "vote" && m["t"] == "pv" && m["sig"] == "1" {
-			v, _ := strconv.Atoi(m["v"])
+			// power is counted by the DISTINCT ACTUAL SIGNER of a delivered prevote (k, default v),
+			// whatever index and address the message claims
+			k, _ := strconv.Atoi(m["v"])
+			if x, ok := m["k"]; ok {
+				k, _ = strconv.Atoi(x)
+			}
 			r, _ := strconv.Atoi(m["r"])
-			if v >= 0 && v < len(powers) && v != self {
-				note("pv", r, m["b"], v)
+			if k >= 0 && k < len(powers) && k != self {
+				note("pv", r, m["b"], k)
 			}
 		}
 		parts := strings.SplitN(out[i], " |", 2)
@@ -859,6 +893,7 @@ type gen struct {
 	ops    []string
 	future bool
 	n      int
+	forge  int // 1 in `forge` votes carries an inconsistent (index, address, signer); 0 = none
 }
 
 func (g *gen) do(op string) {
@@ -918,7 +953,46 @@ func (g *gen) voteOp(t string, r int, b string, v int) string {
 	if v == g.s.self || g.r.Intn(40) == 0 {
 		sig = 0 // nobody else can produce our signature
 	}
-	return fmt.Sprintf("vote t=%s r=%d b=%s v=%d peer=%d sig=%d", t, r, b, v, 1+g.r.Intn(3), sig)
+	op := fmt.Sprintf("vote t=%s r=%d b=%s v=%d peer=%d sig=%d", t, r, b, v, 1+g.r.Intn(3), sig)
+	if g.forge > 0 && g.r.Intn(g.forge) == 0 {
+		op = g.forgedVoteOp(t, r, b, v)
+	}
+	return op
+}
+
+// forgedVoteOp: a well-formed vote whose (index, address, actual signer) are inconsistent
+func (g *gen) forgedVoteOp(t string, r int, b string, v int) string {
+	n := len(g.s.w.powers)
+	pick := func() int { // a validator other than us, sometimes a stranger
+		if g.r.Intn(12) == 0 {
+			return n + g.r.Intn(2)
+		}
+		for {
+			if x := g.r.Intn(n); x != g.s.self {
+				return x
+			}
+		}
+	}
+	a, k := v, v
+	switch g.r.Intn(5) {
+	case 0: // another validator's address and signature in slot v
+		k = pick()
+		a = k
+	case 1: // right address, another validator's signature
+		k = pick()
+	case 2: // another address, the slot owner's signature
+		a = pick()
+	case 3: // all three different
+		a, k = pick(), pick()
+	default: // another validator's address and signature, index of a third
+		k = pick()
+		a = k
+		v = g.r.Intn(n)
+	}
+	if k == g.s.self {
+		k = pick()
+	}
+	return fmt.Sprintf("vote t=%s r=%d b=%s v=%d peer=%d sig=1 a=%d k=%d", t, r, b, v, 1+g.r.Intn(3), a, k)
 }
 
 func (g *gen) others() []int {
@@ -1070,6 +1144,12 @@ func genCase(r *rand.Rand, kind string, minOps, maxOps int) core.Case {
 	}
 	defer s.close()
 	g := &gen{r: r, s: s, ops: []string{line}, future: kind == "future"}
+	switch r.Intn(4) {
+	case 0:
+		g.forge = 3
+	case 1:
+		g.forge = 15
+	}
 	if r.Intn(10) != 0 {
 		g.do("timeout r=0 s=newHeight")
 	}
@@ -1507,6 +1587,172 @@ func genLockedPOL(r *rand.Rand) core.Case {
 	return core.Case{Kind: "locked-pol", Ops: g.ops}
 }
 
+// genForgedSlots: ONE validator tries to fill the slots of the others: votes carrying its own address
+// and signature (or the slot owner's address with its signature) under every index, for prevotes and
+// precommits of the current, an earlier and a later round. A correct vote set counts none of them.
+func genForgedSlots(r *rand.Rand) core.Case {
+	w := getWorld(powerSets[r.Intn(len(powerSets))])
+	n := len(w.powers)
+	self := r.Intn(n)
+	line := cfgLine(w, self, r.Intn(2) == 0, false, false)
+	s := newSim(line)
+	defer s.close()
+	g := &gen{r: r, s: s, ops: []string{line}}
+	g.do("timeout r=0 s=newHeight")
+	// get to some round first
+	for rr, upto := 0, r.Intn(3); rr < upto && g.live(); rr++ {
+		g.do(fmt.Sprintf("timeout r=%d s=propose", rr))
+		g.nextRound(rr)
+	}
+	d := r.Intn(n) // the forger
+	for d == self {
+		d = r.Intn(n)
+	}
+	for k := 0; k < 2+r.Intn(2) && g.live(); k++ {
+		cur := g.curRound()
+		b := 1 + r.Intn(2)
+		g.propose(cur, b, -1, true)
+		if g.live() && r.Intn(2) == 0 {
+			g.do(fmt.Sprintf("timeout r=%d s=propose", cur))
+		}
+		rounds := []int{cur, cur, cur + 1}
+		if cur > 0 {
+			rounds = append(rounds, r.Intn(cur))
+		}
+		vr := rounds[r.Intn(len(rounds))]
+		bid := strconv.Itoa(b)
+		if r.Intn(5) == 0 {
+			bid = "nil"
+		}
+		for _, t := range []string{"pv", "pc"} {
+			if r.Intn(4) == 0 {
+				g.do(g.voteOp(t, vr, bid, d)) // its one genuine vote
+			}
+			for _, v := range r.Perm(n) {
+				if !g.live() {
+					break
+				}
+				a := d
+				if r.Intn(4) == 0 {
+					a = v
+				}
+				g.do(fmt.Sprintf("vote t=%s r=%d b=%s v=%d peer=%d sig=1 a=%d k=%d", t, vr, bid, v, 1+r.Intn(3), a, d))
+			}
+			if g.live() && t == "pv" && r.Intn(2) == 0 {
+				g.do(fmt.Sprintf("timeout r=%d s=prevoteWait", g.curRound()))
+			}
+		}
+		if g.live() {
+			g.nextRound(g.curRound())
+		}
+	}
+	stat("forged-slots-cases")
+	return core.Case{Kind: "forged-slots", Ops: g.ops}
+}
+
+// subsetWithSum returns indices out of `cands` whose powers sum to exactly `want` (nil if none)
+func subsetWithSum(powers []int64, cands []int, want int64) []int {
+	for mask := 0; mask < 1<<len(cands); mask++ {
+		var sum int64
+		var pick []int
+		for i, c := range cands {
+			if mask&(1<<i) != 0 {
+				sum += powers[c]
+				pick = append(pick, c)
+			}
+		}
+		if sum == want {
+			return pick
+		}
+	}
+	return nil
+}
+
+// genThreshold: prevotes (then precommits) for one value whose power is exactly one below the quorum
+// `total*2/3+1` — in particular exactly two thirds of the total when it is divisible by 3 — or exactly
+// the quorum. Just below, a correct node sees no polka: it precommits nil and does not commit.
+func genThreshold(r *rand.Rand) core.Case {
+	var w *world
+	for {
+		w = getWorld(powerSets[r.Intn(len(powerSets))])
+		var t int64
+		for _, p := range w.powers {
+			t += p
+		}
+		if t%3 == 0 || r.Intn(4) == 0 {
+			break
+		}
+	}
+	n := len(w.powers)
+	var total int64
+	for _, p := range w.powers {
+		total += p
+	}
+	quorum := total*2/3 + 1
+	self := r.Intn(n)
+	line := cfgLine(w, self, r.Intn(2) == 0, false, false)
+	s := newSim(line)
+	defer s.close()
+	g := &gen{r: r, s: s, ops: []string{line}}
+	g.do("timeout r=0 s=newHeight")
+	for k := 0; k < 3 && g.live(); k++ {
+		cur := g.curRound()
+		if cur > 20 {
+			break
+		}
+		b := 1 + r.Intn(2)
+		if w.proposers[min(cur, maxRounds)] == self {
+			b = 0
+			if vb := s.node.RS().ValidBlock; vb != nil {
+				b, _ = strconv.Atoi(s.blockName(vb))
+			}
+		}
+		g.propose(cur, b, -1, true)
+		if g.live() {
+			g.do(fmt.Sprintf("timeout r=%d s=propose", cur))
+		}
+		// did we prevote b ourselves?
+		own := int64(0)
+		if p := s.node.RS().Votes.Prevotes(int32(cur)); p != nil {
+			if v := p.GetByIndex(int32(self)); v != nil && s.bidName(v.BlockID) == strconv.Itoa(b) {
+				own = w.powers[self]
+			}
+		}
+		want := quorum - 1
+		if r.Intn(3) == 0 {
+			want = quorum
+		}
+		pick := subsetWithSum(w.powers, g.others(), want-own)
+		if pick == nil {
+			pick = subsetWithSum(w.powers, g.others(), quorum-own)
+		}
+		g.votesFrom("pv", cur, strconv.Itoa(b), pick)
+		// the rest prevotes nil so that +2/3 of anything is there
+		rest := []int{}
+		for _, v := range g.others() {
+			in := false
+			for _, x := range pick {
+				in = in || x == v
+			}
+			if !in {
+				rest = append(rest, v)
+			}
+		}
+		g.votesFrom("pv", cur, "nil", rest)
+		if g.live() {
+			g.do(fmt.Sprintf("timeout r=%d s=prevoteWait", cur))
+		}
+		// precommits for b at the same threshold
+		pc := subsetWithSum(w.powers, g.others(), want)
+		g.votesFrom("pc", cur, strconv.Itoa(b), pc)
+		if g.live() {
+			g.nextRound(cur)
+		}
+	}
+	stat("threshold-cases")
+	return core.Case{Kind: "threshold", Ops: g.ops}
+}
+
 func main() {
 	// C02_CFG="1,1,1,1:self:hrs" prints the cfg line for that configuration (for hand-written corpus cases)
 	if e := os.Getenv("C02_CFG"); e != "" {
@@ -1545,6 +1791,12 @@ func main() {
 			for i := 0; i < n/6; i++ {
 				emit(genLockedPOL(r))
 			}
+			for i := 0; i < n/6; i++ {
+				emit(genForgedSlots(r))
+			}
+			for i := 0; i < n/6; i++ {
+				emit(genThreshold(r))
+			}
 			if tier == "thorough" {
 				for i := 0; i < n/10; i++ {
 					emit(genCase(r, "node", 150, 260)) // long runs reaching higher rounds
@@ -1561,7 +1813,7 @@ func main() {
 			}
 			return false
 		},
-		Rule: "a real consensus.State (kvstore app, 3..7 validators from 7 power configurations incl. one validator above 2/3, FilePV or MockPV signer or no key, in-memory stores, nil WAL, recording ticker) driven synchronously; generated adaptively against the live node: proposals by the right/wrong proposer with POL rounds (-2,-1,earlier,round-1,>=round), complete blocks (3 valid, 1 invalid, 2 unknown ids), single votes and quorum bursts for current/earlier/future/catch-up rounds from 3 peers incl. equivocation, bad signatures, out-of-range indices, peer maj23 claims, timeouts (scheduled, stale, arbitrary, and in kind=future for rounds not reached), txs-available; scripted scenarios: lock-then-competing-polka, stale-quorum (lock, re-lock in later rounds, then the held-back older quorums for nil/another block, then a different proposal), late-pol (proposal with POL round, prevote at timeout, block completes in step Prevote, then the POL prevotes), locked-pol (locked node; the following rounds' prevotes for the locked block / nil / another block / no quorum arrive on time or after its nil precommit; then complete proposals for other blocks with POLRound -1, <, =, > LockedRound or round-1, before/after the propose timeout), after-lock (adaptive: once locked, only quorums of rounds up to the lock round and competing proposals). Non-trivial = the node signed at least one vote; distinct by hash of the op list",
+		Rule: "a real consensus.State (kvstore app, 3..7 validators from 12 power configurations incl. one validator above 2/3, FilePV or MockPV signer or no key, in-memory stores, nil WAL, recording ticker) driven synchronously; generated adaptively against the live node: proposals by the right/wrong proposer with POL rounds (-2,-1,earlier,round-1,>=round), complete blocks (3 valid, 1 invalid, 2 unknown ids), single votes and quorum bursts for current/earlier/future/catch-up rounds from 3 peers incl. equivocation, bad signatures, out-of-range indices, votes whose (index, address, actual signer) are inconsistent in every combination (incl. kind forged-slots: one validator's address+signature under every index, prevotes and precommits, current/earlier/later rounds), peer maj23 claims, timeouts (scheduled, stale, arbitrary, and in kind=future for rounds not reached), txs-available; scripted scenarios: lock-then-competing-polka, stale-quorum (lock, re-lock in later rounds, then the held-back older quorums for nil/another block, then a different proposal), late-pol (proposal with POL round, prevote at timeout, block completes in step Prevote, then the POL prevotes), locked-pol (locked node; the following rounds' prevotes for the locked block / nil / another block / no quorum arrive on time or after its nil precommit; then complete proposals for other blocks with POLRound -1, <, =, > LockedRound or round-1, before/after the propose timeout), threshold (prevotes/precommits for one value with power exactly quorum-1 — exactly 2/3 where the total is divisible by 3 — or exactly the quorum), after-lock (adaptive: once locked, only quorums of rounds up to the lock round and competing proposals). Non-trivial = the node signed at least one vote; distinct by hash of the op list",
 		Assumptions: []string{
 			"one height; a block id stands for (hash, part-set header) of a one-part block; signatures ideal (a vote either verifies for its validator or not)",
 			"own messages are processed in FIFO order right after the input that caused them (the 1000-slot internal queue never overflows)",
